@@ -489,6 +489,8 @@ TREES = {
     "empty": [],
     "std": [(("a",), None), (("a", "b"), None), (("a", "f"), b"hello"), (("b",), None), (("f",), b"0123456789")],
     "deep": [(("a",), None), (("a", "a"), None), (("a", "a", "f"), b"xy"), (("a", "a", "b"), None), (("b",), None), (("b", "f"), b"")],
+    # names with a leading dot, a leading tilde, glob metacharacters: entries like any other
+    "dots": [(("a",), None), ((".hidden",), b"h"), ((".cfg",), None), ((".cfg", "x"), b"1"), (("a", ".keep"), b""), (("a", "[1]"), b"b"), (("~tmp",), None), (("*",), b"star")],
 }
 # directories with more entries than any batch a backend might fetch at a time (64, 128, 256 are the natural sizes)
 for _n in (65, 129, 200, 257):
@@ -567,6 +569,7 @@ def gen_api(ctx):
                 known = known + [op[2]]
                 recent.append(op[2])
         seqs.append((tname, ops))
+    seqs.append(("dots", [("list", ()), ("list", ("a",)), ("list", (".cfg",)), ("stat", (".hidden",)), ("unlink", ("*",)), ("list", ()), ("rmdir", ("~tmp",)), ("list", ())]))
     for tname in sorted(t for t in TREES if t.startswith("wide")):
         seqs.append((tname, [("list", ("w",)), ("unlink", ("w", "e001")), ("list", ("w",)), ("list", ())]))
     return seqs
@@ -705,12 +708,21 @@ def run_api(seqs, backends=("memory", "pathio", "async")):
             jobs.append((b, TREES[tname], ops))
     outs = A.run_many(jobs)
     k = len(backends)
-    return [{b: outs[k * i + n] for n, b in enumerate(backends)} for i in range(len(seqs))]
+    # ("pathio+t" is PathIO made with a timeout: judged as PathIO)
+    return [{b.split("+")[0]: outs[k * i + n] for n, b in enumerate(backends)} for i in range(len(seqs))]
 
 
-def _api(ctx, seqs, inter, compare=True):
+LIST_TARGETS = [("list", ("f",)), ("list", ("a", "f")), ("list", ("missing",)), ("list", ("f", "x")), ("list", ("a",)), ("list", ()), ("stat", ("f",)), ("exists", ("a", "f"))]
+
+
+def _api(ctx, seqs, inter, compare=True, timeout=False):
     res = Result()
-    outs_all = run_api(seqs)
+    if not timeout:
+        # the same backends made with a timeout (`Server(path_timeout=...)`): a sample of the sequences, and listings
+        # aimed at files, at missing paths and through files
+        sub = seqs[:: max(1, len(seqs) // 150)] + [("std", [op]) for op in LIST_TARGETS] + [("std", LIST_TARGETS)]
+        res.merge(_api(ctx, sub, [], compare=False, timeout=True))
+    outs_all = run_api(seqs, ("memory", "pathio+t", "async+t") if timeout else ("memory", "pathio", "async"))
     lines = []
     spans = []
     for (tname, ops), outs in zip(seqs, outs_all):
